@@ -27,6 +27,7 @@ import (
 	"verif/props/c15"
 	"verif/props/c16"
 	"verif/props/c17"
+	"verif/props/c19"
 	"verif/props/c20"
 )
 
@@ -53,6 +54,7 @@ var props = map[string]prop{
 	"C15": {"exploration", c15.Run, c15.Replay},
 	"C16": {"model_checking", c16.Run, c16.Replay},
 	"C17": {"exploration", c17.Run, c17.Replay},
+	"C19": {"exploration", c19.Run, c19.Replay},
 	"C20": {"exploration", c20.Run, c20.Replay},
 }
 
